@@ -1,4 +1,234 @@
-use crate::{ctx::CaseOut, Params};
-pub fn case(_idx: u64, _seed: u64, _p: &Params, o: &mut CaseOut) {
-    o.skipped = true;
+//! C11 — complement, converse, union and vertex filtering compute their set
+//! definitions.
+
+use crate::ctx::CaseOut;
+use crate::events::check_tiling;
+use crate::gen;
+use crate::model::Model;
+use crate::obs::{observe, observe_w};
+use crate::reprs::*;
+use crate::rng::{mix, Fp, Rng};
+use crate::Params;
+use graaf::*;
+
+pub fn hook_begin(p: &Params, idx: u64) {
+    let ds = p.u64("delay", 0);
+    graaf::verif::set_delay_seed(if ds == 0 { 0 } else { mix(ds ^ idx) | 1 });
+    graaf::verif::reset();
+}
+
+pub fn hook_end() -> Vec<(u64, u64, usize, usize)> {
+    let ev = graaf::verif::drain();
+    graaf::verif::set_delay_seed(0);
+    ev
+}
+
+fn unary_fixed<D>(d: &D, m: &Model, o: &mut CaseOut, p: &Params, idx: u64, name: &str, site: Option<u64>)
+where
+    D: Unweighted + Complement + Converse,
+{
+    let before = d.clone();
+    hook_begin(p, idx);
+    let c = d.complement();
+    let ev = hook_end();
+    observe(&c, &m.complement(), o, &format!("{name}::complement"), true);
+    if let Some(s) = site {
+        if let Some(t) = check_tiling(&ev, s, m.n(), false, o, &format!("{name}::complement")) {
+            o.sigs.push((s, t.signature));
+            o.bumpn("workers", t.workers);
+        } else {
+            o.bump("hook_log_empty");
+        }
+    }
+    o.check(c.complement() == *d, &format!("{name}::complement-not-an-involution"), || "complement(complement(D)) != D".into());
+    let v = d.converse();
+    observe(&v, &m.converse(), o, &format!("{name}::converse"), true);
+    o.check(v.converse() == *d, &format!("{name}::converse-not-an-involution"), || "converse(converse(D)) != D".into());
+    o.check(*d == before, &format!("{name}:operand-changed"), || "operand != its pre-call clone".into());
+}
+
+fn model_union_fixed(a: &Model, b: &Model) -> Model {
+    // fixed-order types: V = 0..max(order)
+    let mut u = a.union(b);
+    let n = a.n().max(b.n());
+    u.verts = (0..n).collect();
+    u
+}
+
+fn union_fixed<D>(a: &D, b: &D, c: &D, ma: &Model, mb: &Model, mc: &Model, o: &mut CaseOut, p: &Params, idx: u64, name: &str, site: Option<u64>)
+where
+    D: Unweighted + Union,
+{
+    let (ca, cb) = (a.clone(), b.clone());
+    let want = model_union_fixed(ma, mb);
+    hook_begin(p, idx);
+    let u = a.union(b);
+    let ev = hook_end();
+    observe(&u, &want, o, &format!("{name}::union"), true);
+    if let Some(s) = site {
+        if let Some(t) = check_tiling(&ev, s, want.n(), false, o, &format!("{name}::union")) {
+            o.sigs.push((s, t.signature));
+            o.bumpn("workers", t.workers);
+        } else {
+            o.bump("hook_log_empty");
+        }
+    }
+    o.check(b.union(a) == u, &format!("{name}::union-not-commutative"), || "A u B != B u A".into());
+    o.check(a.union(a) == *a, &format!("{name}::union-not-idempotent"), || "A u A != A".into());
+    o.check(u.union(c) == a.union(&b.union(c)), &format!("{name}::union-not-associative"), || "(A u B) u C != A u (B u C)".into());
+    observe(&u.union(c), &model_union_fixed(&want, mc), o, &format!("{name}::union3"), false);
+    o.check(*a == ca && *b == cb, &format!("{name}:operand-changed"), || "an operand != its pre-call clone".into());
+}
+
+fn map_case(r: &mut Rng, ma: &Model, mb: &Model, mc: &Model, o: &mut CaseOut, p: &Params, idx: u64) {
+    let name = "AdjacencyMap";
+    let (a, b, c) = (build_map_any(ma), build_map_any(mb), build_map_any(mc));
+    let (ca, cb) = (a.clone(), b.clone());
+    // complement / converse
+    let x = a.complement();
+    observe(&x, &ma.complement(), o, "AdjacencyMap::complement", true);
+    o.check(x.complement() == a, "AdjacencyMap::complement-not-an-involution", || "complement(complement(D)) != D".into());
+    let v = a.converse();
+    observe(&v, &ma.converse(), o, "AdjacencyMap::converse", true);
+    o.check(v.converse() == a, "AdjacencyMap::converse-not-an-involution", || "converse(converse(D)) != D".into());
+    // union
+    let want = ma.union(mb);
+    hook_begin(p, idx);
+    let u = a.union(&b);
+    let ev = hook_end();
+    observe(&u, &want, o, "AdjacencyMap::union", true);
+    let tl = check_tiling(&ev, graaf::verif::AM_UNION_LHS, ma.n(), true, o, "AdjacencyMap::union(lhs)");
+    let tr = check_tiling(&ev, graaf::verif::AM_UNION_RHS, mb.n(), true, o, "AdjacencyMap::union(rhs)");
+    match (tl, tr) {
+        (Some(t), Some(t2)) => {
+            o.sigs.push((graaf::verif::AM_UNION_LHS, t.signature ^ t2.signature.rotate_left(17)));
+            o.bumpn("workers", t.workers);
+        }
+        _ => o.bump("hook_log_empty"),
+    }
+    o.check(b.union(&a) == u, "AdjacencyMap::union-not-commutative", || "A u B != B u A".into());
+    o.check(a.union(&a) == a, "AdjacencyMap::union-not-idempotent", || "A u A != A".into());
+    o.check(u.union(&c) == a.union(&b.union(&c)), "AdjacencyMap::union-not-associative", || "(A u B) u C != A u (B u C)".into());
+    observe(&u.union(&c), &want.union(mc), o, "AdjacencyMap::union3", false);
+    // filter_vertices
+    let vs = ma.vert_list();
+    let k = *r.pick(&vs);
+    let pick: Vec<usize> = vs.iter().copied().filter(|_| r.chance(0.5)).collect();
+    let preds: Vec<(&str, Box<dyn Fn(usize) -> bool>)> = vec![
+        ("all", Box::new(|_| true)),
+        ("threshold", Box::new(move |v| v >= k)),
+        ("even", Box::new(|v| v % 2 == 0)),
+        ("random", Box::new(move |v| pick.contains(&v))),
+        ("none", Box::new(|_| false)),
+    ];
+    for (pn, f) in preds {
+        let want = ma.induced(&f);
+        if want.n() == 0 {
+            // the trait documents a panic, the implementation returns an
+            // order-0 map: either is accepted and nothing is counted
+            let _ = crate::ctx::catch(|| a.filter_vertices(&f));
+            continue;
+        }
+        let got = a.filter_vertices(&f);
+        observe(&got, &want, o, &format!("{name}::filter_vertices({pn})"), true);
+    }
+    o.check(a == ca && b == cb, "AdjacencyMap:operand-changed", || "an operand != its pre-call clone".into());
+}
+
+pub const OPS: [&str; 6] = ["AdjacencyList", "AdjacencyMap", "AdjacencyMap(non-contiguous)", "AdjacencyMatrix", "EdgeList", "AdjacencyListWeighted::converse"];
+
+pub fn case(idx: u64, seed: u64, p: &Params, o: &mut CaseOut) {
+    let mut r = Rng::for_case(11, seed, idx);
+    let max = p.usize("max_order", 40);
+    let only = p.usize("kind", usize::MAX);
+    let kind = if only < OPS.len() { only } else { *r.pick(&[0usize, 0, 1, 1, 2, 2, 2, 3, 4, 5]) };
+    let order = |r: &mut Rng| -> usize {
+        match r.below(10) {
+            0..=5 => r.range(1, max.min(9)),
+            6..=7 => r.range(1, max.min(24)),
+            _ => r.range(1, max),
+        }
+    };
+    let n1 = order(&mut r);
+    let n2 = match r.below(4) {
+        0 => n1,
+        1 => (n1 + 1).min(max),
+        _ => order(&mut r),
+    };
+    let n3 = order(&mut r);
+    let f1 = r.below(gen::FAMILIES.len());
+    let mut ma = gen::family(&mut r, f1, n1);
+    let f2 = r.below(gen::FAMILIES.len());
+    let mut mb = if r.chance(0.15) && n2 == n1 { ma.clone() } else { gen::family(&mut r, f2, n2) };
+    let f3 = r.below(gen::FAMILIES.len());
+    let mut mc = gen::family(&mut r, f3, n3);
+    match kind {
+        0 => {
+            let (a, b, c) = (AdjacencyList::build(&ma), AdjacencyList::build(&mb), AdjacencyList::build(&mc));
+            unary_fixed(&a, &ma, o, p, idx, "AdjacencyList", Some(graaf::verif::AL_COMPLEMENT));
+            union_fixed(&a, &b, &c, &ma, &mb, &mc, o, p, idx, "AdjacencyList", Some(graaf::verif::AL_UNION));
+        }
+        1 => map_case(&mut r, &ma, &mb, &mc, o, p, idx),
+        2 => {
+            ma = gen::sparsify(&mut r, &ma);
+            if r.chance(0.7) {
+                mb = gen::sparsify(&mut r, &mb);
+            }
+            if r.chance(0.5) {
+                mc = gen::sparsify(&mut r, &mc);
+            }
+            map_case(&mut r, &ma, &mb, &mc, o, p, idx);
+        }
+        3 => {
+            let (a, b, c) = (AdjacencyMatrix::build(&ma), AdjacencyMatrix::build(&mb), AdjacencyMatrix::build(&mc));
+            unary_fixed(&a, &ma, o, p, idx, "AdjacencyMatrix", None);
+            union_fixed(&a, &b, &c, &ma, &mb, &mc, o, p, idx, "AdjacencyMatrix", None);
+        }
+        4 => {
+            let (a, b, c) = (EdgeList::build(&ma), EdgeList::build(&mb), EdgeList::build(&mc));
+            unary_fixed(&a, &ma, o, p, idx, "EdgeList", None);
+            union_fixed(&a, &b, &c, &ma, &mb, &mc, o, p, idx, "EdgeList", None);
+        }
+        _ => {
+            if r.chance(0.5) {
+                gen::weights(&mut r, &mut ma, gen::WClass::Small);
+                let d = build_w_usize(&ma);
+                let before = d.clone();
+                let v = d.converse();
+                observe(&v, &ma.converse(), o, "AdjacencyListWeighted<usize>::converse", true);
+                observe_w(&v, &ma.converse(), o, "AdjacencyListWeighted<usize>::converse", |w| *w as i64);
+                o.check(v.converse() == d, "AdjacencyListWeighted<usize>::converse-not-an-involution", || "converse(converse(D)) != D".into());
+                o.check(d == before, "AdjacencyListWeighted<usize>:operand-changed", || "operand changed".into());
+            } else {
+                gen::weights(&mut r, &mut ma, gen::WClass::MixedNeg);
+                let d = build_w_isize(&ma);
+                let before = d.clone();
+                let v = d.converse();
+                observe(&v, &ma.converse(), o, "AdjacencyListWeighted<isize>::converse", true);
+                observe_w(&v, &ma.converse(), o, "AdjacencyListWeighted<isize>::converse", |w| *w as i64);
+                o.check(v.converse() == d, "AdjacencyListWeighted<isize>::converse-not-an-involution", || "converse(converse(D)) != D".into());
+                o.check(d == before, "AdjacencyListWeighted<isize>:operand-changed", || "operand changed".into());
+            }
+        }
+    }
+    let t = std::thread::available_parallelism().map_or(1, |x| x.get());
+    let mut fp = Fp::new();
+    fp.us(kind);
+    ma.fingerprint(&mut fp);
+    if kind != 5 {
+        mb.fingerprint(&mut fp);
+        mc.fingerprint(&mut fp);
+    }
+    o.fp = fp.0;
+    o.nontrivial = ma.n().max(mb.n()) > t || ma.n() != mb.n() || !ma.is_contig();
+    o.bump(OPS[kind]);
+    o.bumpn("threads_available", t);
+    o.bumpn("order/8", ma.n() / 8);
+    if o.want_desc {
+        o.desc = if kind == 5 {
+            format!("{} D: {}", OPS[kind], ma.describe())
+        } else {
+            format!("{} A: {} | B: {} | C: {} (available_parallelism {t})", OPS[kind], ma.describe(), mb.describe(), mc.describe())
+        };
+    }
 }
